@@ -1726,7 +1726,7 @@ def gen_ign_cover(tier):
         allivs = [(n, a, b) for n, s in inc for a in range(s) for b in range(a + 1, s + 1)]
         pairs = [[x, y] for x in allivs for y in allivs]
         triples = [list(reversed(c)) for c in itertools.combinations_with_replacement(allivs, 3)]
-        sets = [[]] + [[x] for x in allivs] + (pairs[::5] + triples[::23] if quick else pairs + triples[::2])
+        sets = [[]] + [[x] for x in allivs] + (pairs[::5] + triples[::23] if quick else pairs + triples[::3])
         for ivs in sets:
             k += 1
             route = IGN_ROUTES[k % 4]
@@ -1872,7 +1872,7 @@ def run(tier="quick", seed=0):
                                       "not in scope": "from_intervals with an array of values (raises on every input, known finding)"},
                   "ignored contigs": {"contig lists (file order)": {k: [list(c) for c in v] for k, v in IGN_GENOMES.items()},
                                       "ignored": "names containing '_' (default of Genome.from_file), plus one name added by with_ignored_added",
-                                      "routes": list(IGN_ROUTES), "intervals": "0..3 on the included contigs (every pair; triples strided by 2, quick: pairs by 5, triples by 23), "
+                                      "routes": list(IGN_ROUTES), "intervals": "0..3 on the included contigs (every pair; triples strided by 3, quick: pairs by 5, triples by 23), "
                                       "every 3rd set with intervals on the ignored contigs", "views": {k: [v[0] for v in vs] for k, vs in IGN_VIEWS.items()},
                                       "expr leaves": "A int track, B float track, M, K masks, P pileup of the intervals of K and M",
                                       "big": {k: [list(c) for c in v] for k, v in BIG_CONTIGS.items()}}}
